@@ -100,25 +100,31 @@ def glweDecrypt (bits : Nat) (ct : GLWE) (sk : List Poly) (ptBase2k ptSize : Nat
   if ct.rank ≠ sk.length then none
   else bigNormalize bits ptBase2k ptSize (phaseBig sk ct) ct.base2k ct.n
 
+/-- `if let Some((pt, col)) = pt && col == i { vec_znx_big_add_small_assign(ci_big, 0, pt, 0) }` -/
+def addPtBig (bits : Nat) (pt : Option Col) (c1 : Col) : Col :=
+  match pt with
+  | some p => vecAddAssignW (wrapN bits) c1 p
+  | none => c1
+
 /-- one column of **`glwe_encrypt_pk_internal`**: `ct[i] = normalize(u ⋆ pk[i] + e_i (+ m if i = col))` -/
 def encPkCol (bits b n size kxe : Nat) (u : Poly) (pki : Col) (ei : Poly) (pt : Option Col) : Option Col :=
   let ciBig := Hal.svpApplyCol n pki.length u pki       -- ci_dft (size_pk limbs) = DFT(u) · pk[i]; idft consume
   match Sampling.addNormalCol (wrapN bits) kxe b ciBig ei with   -- vec_znx_big_add_normal
   | none => none
   | some c1 =>
-    let c2 := match pt with
-      | some p => vecAddAssignW (wrapN bits) c1 p       -- vec_znx_big_add_small_assign
-      | none => c1
-    bigNormalize bits b size c2 b n                     -- vec_znx_big_normalize(res, base2k, 0, i, ci_big, base2k, 0)
+    bigNormalize bits b size (addPtBig bits pt c1) b n                     -- vec_znx_big_normalize(res, base2k, 0, i, ci_big, base2k, 0)
+
+/-- the plaintext goes to column `col` only -/
+def ptForCol (pt : Option (Col × Nat)) (i : Nat) : Option Col :=
+  match pt with
+  | some (p, col) => if col = i then some p else none
+  | none => none
 
 def encPkLoop (bits b n size kxe : Nat) (u : Poly) (pt : Option (Col × Nat)) : Nat → List Col → List Poly → Option (List Col)
   | _, [], _ => some []
   | _, _ :: _, [] => none
   | i, pki :: pks, ei :: es =>
-    let pti := match pt with
-      | some (p, col) => if col = i then some p else none
-      | none => none
-    match encPkCol bits b n size kxe u pki ei pti with
+    match encPkCol bits b n size kxe u pki ei (ptForCol pt i) with
     | none => none
     | some ci =>
       match encPkLoop bits b n size kxe u pt (i + 1) pks es with
